@@ -463,7 +463,8 @@ static void emitCall(const CallBase& CB, FnCtx& C, const Function& F)
       bool byteLoop = CB.arg_size() > 2 && !isa<ConstantInt>(CB.getArgOperand(2));
       const char* sfx = byteLoop ? "vp_" : "";
       const char* sfx2 = byteLoop ? "_bytes" : "";
-      if(n.startswith("llvm.memcpy")) { os << "  " << sfx << "memcpy" << sfx2 << "(" << arg(0) << ", " << arg(1) << ", " << arg(2) << ");\n"; return; }
+      // llvm.memcpy allows dst == src exactly (C++ self-assignment of a trivially copyable object); C memcpy does not
+      if(n.startswith("llvm.memcpy")) { os << "  if((u8*)" << arg(0) << " != (u8*)" << arg(1) << ") " << sfx << "memcpy" << sfx2 << "(" << arg(0) << ", " << arg(1) << ", " << arg(2) << ");\n"; return; }
       if(n.startswith("llvm.memmove")) { os << "  " << sfx << "memmove" << sfx2 << "(" << arg(0) << ", " << arg(1) << ", " << arg(2) << ");\n"; return; }
       if(n.startswith("llvm.memset")) { os << "  " << sfx << "memset" << sfx2 << "(" << arg(0) << ", " << arg(1) << ", " << arg(2) << ");\n"; return; }
       if(n.startswith("llvm.fabs")) { os << "  " << lhs << "fabs(" << arg(0) << ");\n"; return; }
